@@ -257,7 +257,12 @@ def run(R):
             "cannot join it", tcfg.fmt_path(p if isinstance(p, list) else pre) if (isinstance(p, list) or pre) else None)
     for w in writes:
         v = w.ast.value
-        okn = isinstance(v, ast.Call) and q.call_name(v) == "DebugBatch" and q.src(w.ast.targets[0].slice) == "self.name" and v.args and q.src(v.args[0]) == "self.name"
+        dbi = db.methods.get("__init__")
+        first_param = q.param_names(dbi.node)[1] if dbi is not None and len(q.param_names(dbi.node)) > 1 else "name"
+        name_arg = None
+        if isinstance(v, ast.Call):
+            name_arg = next((k.value for k in v.keywords if k.arg == first_param), v.args[0] if v.args else None)
+        okn = isinstance(v, ast.Call) and q.call_name(v) == "DebugBatch" and q.src(w.ast.targets[0].slice) == "self.name" and name_arg is not None and q.src(name_arg) == "self.name"
         R.check(okn, "C11.DEBUG-SWITCH", ts.qualname + ":fresh", R.site(ts, w.ast),
                 "the slot receives a fresh DebugBatch of the same name", "the slot does not receive a fresh DebugBatch of the same name")
     p = tcfg.find_path([tcfg.entry], [tcfg.raise_exit], N)
